@@ -155,7 +155,7 @@ class C04(Oracle):
                     self.fail("server-intervals-overlap", "node %s server %s: ind %s [%r,%r] overlaps ind %s [%r,%r]" % (key[0], key[1], a[2], a[0], a[1], b[2], b[0], b[1]))
         # utilisation: only for unsplit runs without any pre-emption
         f = R.feats
-        if op[0] != "cap" and R.seg == len(R.S["plan"]) and "preempt" not in f and "schedpre" not in f and "slotpre" not in f and not R.S.get("exact"):
+        if op[0] != "cap" and R.seg == len(R.S["plan"]) and "preempt" not in f and "schedpre" not in f and "slotpre" not in f:
             if op[0] == "time":
                 tend = float(op[1])
             else:
@@ -183,9 +183,11 @@ class C04(Oracle):
                         continue   # engine reports None when the run ends in a zero-server shift (documented for c == 0)
                     self.fail("utilisation-missing", "node %s utilisation %r, expected %r" % (nid, u, busy / total))
                 exp = busy / total
+                u = float(u)
+                tol = 1e-9 if not R.S.get("exact") else max(1e-9, 10.0 ** -(R.S["exact"] - 4))
                 if not (-1e-12 <= u <= 1 + 1e-12):
                     self.fail("utilisation-out-of-range", "node %s utilisation %r" % (nid, u))
-                if abs(u - exp) > 1e-9 * max(1.0, abs(exp)):
+                if abs(u - exp) > tol * max(1.0, abs(exp)):
                     self.fail("utilisation-wrong", "node %s reports %r, attached time / server time = %r / %r = %r" % (nid, u, busy, total, exp))
                 R.counts["C04:utilisation_checked"] += 1
 
